@@ -567,6 +567,8 @@ func refusedFirstPacket(kind string) []byte {
 		return pkt(0x10, append(append(append(lp([]byte("MQTT")), 4, 0x82, 0, 60), lp([]byte("k1"))...), lp([]byte("evil"))...))
 	case "abort-k1-keep": // a valid resume attempt for k1 that the client abandons before reading the CONNACK
 		return pkt(0x10, append(append(append(lp([]byte("MQTT")), 4, 0x80, 0, 60), lp([]byte("k1"))...), lp([]byte("good"))...))
+	case "remlen5": // a remaining length of five bytes (MQTT: at most four), announcing 34 GB
+		return []byte{0x10, 0xff, 0xff, 0xff, 0xff, 0x7f}
 	case "v3-truncated10": // MQTT 3.1 CONNECT ("MQIsdp", level 3) that ends right behind the connect flags
 		return pkt(0x10, append(lp([]byte("MQIsdp")), 3, 2))
 	case "v3-truncated11": // ... or after the first byte of the keep-alive
